@@ -137,6 +137,11 @@ Record sc_in := {
   sc_queue : list ShareClass.unb;   (* in completion-time index order *)
   sc_mod_bond : Z;                  (* bond-denom balance of the module account before the block *)
   sc_released : Z;                  (* paid by x/staking's end blocker for the entries it completed *)
+  sc_staking_times : list Z;        (* ghost: exact completion times (ns) of the module account's x/staking
+                                       unbonding-delegation entries, all validators *)
+  sc_slash_loss : Z;                (* ghost: initial balance - balance, summed over those x/staking entries that
+                                       are mature at the block time: what slashes took from the entries that
+                                       x/staking completes in this block *)
   sc_blocked : list Z               (* ids of the entries whose recipient the bank refuses to pay
                                        (BlockedAddr: module accounts); none since the handler rejects
                                        such recipients (notes/patches/C01-shareclass-reject-blocked-recipient.patch) *)
